@@ -373,7 +373,18 @@ func (ce *cenv) expr(e *CExpr) Term {
 			tm := Term{S: n, Sort: sortOf(t), T: t}
 			scope[v.Name] = tm
 			decls = append(decls, fmt.Sprintf("(%s %s)", n, tm.Sort))
+			if tm.Sort == SStr && e.Op == "forall" {
+				// every string has a non-negative length: guarding a universal statement with it would only let a
+				// solver escape the statement through a string of negative length
+				continue
+			}
 			for _, f := range fc.rangeFacts(tm, t) {
+				if (strings.Contains(f, "9223372036854775807") || strings.Contains(f, "9223372036854775808") || strings.Contains(f, "18446744073709551615")) {
+					// a quantified statement over int / int64 ranges over every integer: restricting it to the
+					// 64-bit range would let a solver escape a universal (or lose the witness of an existential)
+					// through an index beyond that range; slice lengths are not bounded in the model
+					continue
+				}
 				guards = append(guards, boolT(f))
 			}
 		}
